@@ -22,6 +22,7 @@ it states what every correct traversal must produce:
 -/
 import QmcModel.Basic
 import QmcModel.Rand
+import QmcModel.Common
 
 namespace Qmc
 
@@ -76,20 +77,10 @@ def Ham.FlipSym (H : Ham) (b : Nat) : Prop := ∀ i o, H.w b (flipBits i) (flipB
 def Ham.ConstW (H : Ham) (b : Nat) : Prop :=
   ∀ i o i' o', i.length = i'.length → o.length = o'.length → H.w b i o = H.w b i' o'
 
-/-! ### the relation -/
+/-! ### the relation
 
-/-- pointwise xor of two bit lists -/
-def xorB (x y : List Bool) : List Bool := List.zipWith (fun p q => p != q) x y
-
-/-- the flip mask of one op: which input / output legs differ -/
-def maskOp (ob oa : Op) : Op :=
-  { vars := ob.vars, bond := ob.bond, ins := xorB ob.ins oa.ins, outs := xorB ob.outs oa.outs,
-    tagDiag := false, const := ob.const }
-
-def maskSlots : Slots → Slots → Slots
-  | some ob :: tb, some oa :: ta => some (maskOp ob oa) :: maskSlots tb ta
-  | _ :: tb, _ :: ta => none :: maskSlots tb ta
-  | _, _ => []
+`xorB`, `maskOp`, `maskSlots` (pointwise xor; the flip mask of an op / of a string) are in
+QmcModel/Common.lean, shared with Worldline.lean. -/
 
 /-- the set `D` of flipped legs as a configuration on the same skeleton -/
 def mask (b a : Config) : Config :=
@@ -180,7 +171,9 @@ def TagCanon (s : Slots) : Prop := ∀ o ∈ opsOf s, o.tagDiag = (o.ins == o.ou
 Leg ids: ops in time order; an op with `k` variables occupies `2k` consecutive ids, input legs
 `off .. off+k-1` then output legs `off+k .. off+2k-1`. -/
 
-structure Leg where
+/-- a leg `(p, relvar, side)` of the cluster leg graph (named `ClLeg`: `Qmc.Leg` is the loop update's leg,
+QmcModel/Loop.lean) -/
+structure ClLeg where
   p : Nat
   rel : Nat
   out : Bool
@@ -194,7 +187,7 @@ structure Scan where
   /-- variable ↦ id of its first input leg -/
   first : List (Nat × Nat) := []
   edges : List (Nat × Nat) := []
-  legs : List Leg := []
+  legs : List ClLeg := []
   hasEdge : Bool := false
   /-- leg id ranges `(off, nvars, sk)` of the ops -/
   opsAt : List (Nat × SkOp) := []
@@ -227,7 +220,7 @@ def Scan.step (s : Scan) : Option SkOp → Scan
 structure LegGraph where
   nlegs : Nat
   edges : List (Nat × Nat)
-  legs : List Leg
+  legs : List ClLeg
   hasEdge : Bool
   opsAt : List (Nat × SkOp)
 
@@ -309,9 +302,8 @@ def freeRefresh (sk : Skel) : Nat → List Bool → RS → List Bool × RS
       let rest := freeRefresh sk (v + 1) xs r.2
       (r.1 :: rest.1, rest.2)
 
-/-! ### the transverse-field Ising matrix elements (`QmcIsingGraph::hamiltonian`) -/
-
-def absR (x : Rat) : Rat := if x < 0 then -x else x
+/-! ### the transverse-field Ising matrix elements (`QmcIsingGraph::hamiltonian`)
+(`absR` is in QmcModel/Common.lean) -/
 
 /-- `two_site_hamiltonian` -/
 def twoSiteW (J : Rat) (i o : List Bool) : Rat :=
